@@ -202,8 +202,12 @@ func runC15(c *Ctx) {
 				continue
 			}
 			if info, ok := fg.EdgeInfo(b, 0); ok {
-				if id, ok := ast.Unparen(info.Cond).(*ast.Ident); ok && foundObj != nil && f.ObjOf(id) == foundObj {
-					foundBlk = b.Succs[0]
+				cond, succ := ast.Unparen(info.Cond), 0
+				if u, ok := cond.(*ast.UnaryExpr); ok && u.Op == token.NOT {
+					cond, succ = ast.Unparen(u.X), 1 // `if !found { miss }`: the hit path is the false edge
+				}
+				if id, ok := cond.(*ast.Ident); ok && foundObj != nil && f.ObjOf(id) == foundObj && foundBlk == nil {
+					foundBlk = b.Succs[succ]
 				}
 			}
 		}
@@ -363,6 +367,9 @@ func runC15(c *Ctx) {
 	if c.Prop == "C15" {
 		c04FlushOrder(c, "C15.7")
 	}
+	if c.Prop == "C15" {
+		ruleKeyTypeAgreement(c, "C15.8")
+	}
 }
 
 func runC16(c *Ctx) {
@@ -455,6 +462,8 @@ func runC16(c *Ctx) {
 	}
 	c11MarkDirty(c, "C16.4")
 	c08SizeGuard(c, "C16.4s")
+	ruleKeyTypeAgreement(c, "C16.7")
+	ruleListIterationStable(c, "C16.8")
 	// C16.5
 	m := w.Locks()
 	n := 0
